@@ -112,7 +112,9 @@ OnlyZeroLoss(a, b, isdobs) ==
 \*   int k: at position k;  string s: in front of every occurrence of s
 NameAfter(name, ens, mode) ==
   LET stored == StrReplace(name, "|", "") IN
-  CASE mode.k = "true"  -> IF StrStartsWith(stored, ens) THEN StrCat(StrCat(ens, "|"), StrSub(stored, StrLen(ens) + 1, StrLen(stored))) ELSE stored
+  CASE mode.k = "true"  -> \* ... when something follows the tag: a chain named like its ensemble keeps its name
+                           IF StrStartsWith(stored, ens) /\ StrLen(stored) > StrLen(ens)
+                           THEN StrCat(StrCat(ens, "|"), StrSub(stored, StrLen(ens) + 1, StrLen(stored))) ELSE stored
     [] mode.k \in {"false", "none"} -> stored
     [] mode.k = "int"   -> StrCat(StrCat(StrSub(stored, 1, mode.v), "|"), StrSub(stored, mode.v + 1, StrLen(stored)))
     [] mode.k = "str"   -> StrReplace(stored, mode.v, StrCat("|", mode.v))
@@ -133,6 +135,10 @@ CheckCase(c) ==
          \* pobs builds each observable with the public constructor: replica names that no longer share one ensemble are rejected there (C04)
          IF ~c.isdobs /\ \E i \in DOMAIN exp.a : Cardinality(EnsNames(exp.a[i].o)) > 1
          THEN Verdict(id, "pobs: replicas without a common ensemble name must be rejected", c.after.k = "exc")
+         \* the pobs format has one configuration column per replica: observables on other chains or configurations cannot be stored in it
+         ELSE IF ~c.isdobs /\ \E i \in DOMAIN c.before.a : [k \in DOMAIN c.before.a[i].o.chains |-> <<c.before.a[i].o.chains[k].name, c.before.a[i].o.chains[k].idl>>]
+                                                          # [k \in DOMAIN c.before.a[1].o.chains |-> <<c.before.a[1].o.chains[k].name, c.before.a[1].o.chains[k].idl>>]
+         THEN Verdict(id, "pobs: observables on different configurations must be rejected", c.after.k = "exc")
          ELSE IF c.after.k = "exc" THEN Verdict(id, c.fmt \o ": import or export raised " \o c.after.t, FALSE)
          ELSE IF DocSame(exp, c.after) THEN TRUE
          ELSE IF OnlyZeroLoss(exp, c.after, c.isdobs)
